@@ -33,7 +33,7 @@ from dst.world import scratch_dir
 
 PROP = 'C02'
 LEVEL = 'exploration'
-COUNTS = {'quick': 26, 'thorough': 800}
+COUNTS = {'quick': 28, 'thorough': 800}
 BUDGET = {'quick': 140, 'thorough': 1700}
 TIMEOUT = 1200
 WORKERS = 6          # every scenario starts fresh interpreters and code generations that use their own process pool
@@ -41,7 +41,7 @@ DETERMINISM_SMOKE = 2
 MIN_EVALS = {'quick': 6, 'thorough': 30}
 SHRINK_LISTS = []
 EXPECTED_PROBES = ['edit', 'stale_md5', 'torn', 'deleted', 'crash', 'regen', 'evals', 'regenerated_models', 'loud_failure',
-                   'case_models_evaluated', 'case_values_compared', 'all_cases_evaluated']
+                   'case_models_evaluated', 'case_values_compared', 'all_cases_evaluated', 'md5_overwritten']
 RULE = ('plan = (scenario kind, seeded model/variable/expression or byte offset or crash point); non-trivial = the store was really '
         'perturbed (edit applied, bytes changed, generation interrupted) and a fresh interpreter evaluated the loaded code afterwards; '
         'distinct = (kind, model, detail)')
@@ -70,6 +70,10 @@ def plans(seed, tier, count):
         out.append({'property': PROP, 'seed': core.H('fix02', 'edit', i), 'kind': 'edit', 'edit': e})
     out.insert(0, {'property': PROP, 'seed': core.H('fix02', 'regen'), 'kind': 'regen', 'all_cases': True})
     out.append({'property': PROP, 'seed': core.H('fix02', 'del_init'), 'kind': 'deleted', 'file': '__init__.py'})
+    # truncations behind the checksum line (the file still names the right md5, its body is gone) and an overwritten checksum
+    out.insert(1, {'property': PROP, 'seed': core.H('fix02', 'torn', 0), 'kind': 'torn', 'file': 'Shunt.py', 'frac': 0.6})
+    out.insert(2, {'property': PROP, 'seed': core.H('fix02', 'torn', 1), 'kind': 'torn', 'file': 'GENCLS.py', 'frac': 0.93})
+    out.insert(3, {'property': PROP, 'seed': core.H('fix02', 'md5', 0), 'kind': 'stale_md5', 'file': 'PQ.py'})
     i = 0
     while len(out) < count:
         out.append({'stub': True, 'seed': core.H(seed, PROP, i), 'tier': tier})
@@ -175,11 +179,11 @@ def execute(plan):
             detail = f
             before = _read(store, f)
             txt = before.decode()
-            i = txt.find("md5 = '")
+            i = max(txt.find("md5 = '"), txt.find('md5 = "'))
             if i < 0:
-                res.update(nontrivial=False, sig='no-md5', digest='no-md5', probes=probes)
-                return res
+                raise core.HarnessError('generated file %s carries no md5 line' % f)
             txt2 = txt[:i + 7] + '0' * 32 + txt[i + 7 + 32:]
+            probes['md5_overwritten'] = 1
             _write(store, f, txt2.encode())
             r1, _ = child(home, {'ops': ['new_system', 'eval'], 'seed': seed})
             judge_eval(r1, 'stale md5 in %s' % f, v, probes)
